@@ -396,6 +396,9 @@ func checkParse(ctx *pbt.Ctx, c Scr) error {
 	if !bytes.Equal(in, script) {
 		return fmt.Errorf("Parse modified its input %s -> %s", short(script), short(in))
 	}
+	if ferr := checkFlagged(ctx, &interpreter.DefaultOpcodeParser{ErrorOnCheckSig: true}, script, v, ops, err); ferr != nil {
+		return ferr
+	}
 	switch {
 	case v.Ambiguous:
 		ctx.Label("verdict: not claimed (OP_RETURN after unbalanced ENDIF or OP_VERIF/OP_VERNOTIF)")
@@ -496,6 +499,7 @@ func enumShort(tier string, yield func(Scr)) {
 			yield(Scr{How: "enum", Script: pbt.Hex{byte(a), byte(b)}})
 		}
 	}
+	enumReturnTails(yield)
 	// 64 kB boundary pushes in every form wide enough, alone and between two opcodes
 	for _, n := range []int{65535, 65536, 65537} {
 		data := make([]byte, n)
@@ -521,7 +525,7 @@ func enumShort(tier string, yield func(Scr)) {
 	}
 }
 
-const enumShortDesc = "all 65 793 scripts of length <= 2; 10 scripts with a 65535/65536/65537-byte push in PUSHDATA2/4 form; thorough: also all 16 777 216 scripts of 3 bytes"
+const enumShortDesc = "all 65 793 scripts of length <= 2; the first byte behind an OP_RETURN sweeping all 256 values in 7 top-level contexts x 3 continuations and inside 4 IF/NOTIF/ELSE shapes (6 400 scripts); 10 scripts with a 65535/65536/65537-byte push in PUSHDATA2/4 form; thorough: also all 16 777 216 scripts of 3 bytes"
 
 func TestParseUnparse(t *testing.T) {
 	pbt.Run(t, pbt.Sub[Scr]{
@@ -539,6 +543,14 @@ func checkAgree(ctx *pbt.Ctx, c Scr) error {
 	defer relieve(len(script))
 	ctx.Key(script)
 	toks, ok, cut := ref.Tokenize(script)
+	{
+		// the parser-configuration axis does not depend on the other tokeniser: also for scripts with OP_RETURN
+		zin := append([]byte(nil), script...)
+		zops, zerr := (&interpreter.DefaultOpcodeParser{}).Parse(bscript.NewFromBytes(zin))
+		if ferr := checkFlagged(ctx, &interpreter.DefaultOpcodeParser{ErrorOnCheckSig: true}, script, ref.ParserTokenize(script), zops, zerr); ferr != nil {
+			return ferr
+		}
+	}
 	for _, t := range toks {
 		if t.Op == ref.OpReturn {
 			// agreement is only claimed for OP_RETURN-free scripts
